@@ -289,6 +289,8 @@ def exec_for(eng, node, st, k, ctx):
         idx_name = lc.get("idx", f"_i{n}")
         # note: iteration over a list that the body itself mutates is not modelled
         s1.env[idx_name] = py(0)
+        if it.s[0] == "list":
+            s1.env[f"_it{n}"] = it          # the iterated list (may be an anonymous expression): invariants may name it
 
         def index_havoc(s):
             i = fresh("lp!" + idx_name, z3.IntSort())
